@@ -181,13 +181,12 @@ theorem core_spelling_invariant (set : List Raw) (wf : WF set) (t t' : TxV)
 example : parse "0x742d35cc6634c0532925a3b844bc9e7595f0beb0".toList = parse "742D35CC6634C0532925A3B844BC9E7595F0BEB0".toList ∧
     (parse "0X742d35Cc6634C0532925a3b844Bc9e7595f0bEb0".toList).isSome = true := by decide
 
-/-- **consensus side, partial**: at every height `height ≥ forkHeight` (the configured activation height), a receipt
-other than ExecErr means the executed transaction — the transaction itself, every member of its group, the inner
-transaction of a proxied one — touches no blacklisted account in any position or spelling. Added hypothesis: the item
-is not a para-chain "forwarded" transaction (`IsForward2MainChainTx`; impossible on a main-chain node, and on a para
-node only for executors listed in rpc.parachain.forwardExecs or for transactions of other chains). -/
-theorem exec_ok_not_blocked_partial (set : List Raw) (wf : WF set) (forkHeight height : Nat) (hh : forkHeight ≤ height)
-    (item : Item) (hfw : item.isForwarded = false) (i : Nat) (t : TxV) (ty : Ty)
+/-- **consensus side**: at every height `height ≥ forkHeight` (the configured activation height), a receipt other than
+ExecErr means the executed transaction — the transaction itself, every member of its group, the inner transaction of a
+proxied one, a para-chain forwarded transaction (`IsForward2MainChainTx`) — touches no blacklisted account in any
+position or spelling. -/
+theorem exec_ok_not_blocked (set : List Raw) (wf : WF set) (forkHeight height : Nat) (hh : forkHeight ≤ height)
+    (item : Item) (i : Nat) (t : TxV) (ty : Ty)
     (ht : item.effective[i]? = some t) (hr : (execItem (activeAt forkHeight height) set item)[i]? = some ty)
     (hne : ty ≠ .err) : ¬ Touches set t := by
   have hact : activeAt forkHeight height = true := by simp [activeAt, hh]
@@ -224,18 +223,19 @@ theorem exec_ok_not_blocked_partial (set : List Raw) (wf : WF set) (forkHeight h
         simp at ht; subst ht
         simp [execItem, hc] at hr; exact hne hr.symm
       | succ n => simp at ht
-  | forwarded t0 base => simp [Item.isForwarded] at hfw
+  | forwarded t0 base =>
+    simp only [Item.effective] at ht
+    cases i with
+    | zero =>
+      simp at ht; subst ht
+      simp [execItem, hc] at hr; exact hne hr.symm
+    | succ n => simp at ht
 
 /-- before the activation height nothing is rejected by the rule: the receipts are the baseline ones. -/
 theorem exec_before_activation (set : List Raw) (forkHeight height : Nat) (hh : height < forkHeight) (t : TxV) (base : Ty) :
     execItem (activeAt forkHeight height) set (.single t base) = [base] := by
   have : activeAt forkHeight height = false := by simp [activeAt]; omega
   simp [execItem, check, this]
-
-/-- the statement the property asks of block execution: the above for EVERY item. -/
-def ExecFullStatement : Prop :=
-  ∀ (set : List Raw) (_ : WF set) (forkHeight height : Nat) (_ : forkHeight ≤ height) (item : Item) (i : Nat) (t : TxV) (ty : Ty),
-    item.effective[i]? = some t → (execItem (activeAt forkHeight height) set item)[i]? = some ty → ty ≠ .err → ¬ Touches set t
 
 /-- non-vacuity: a group passes when nobody is listed, and is rejected as a whole when one member is. -/
 def exClean : TxV := { sender := "0x1111111111111111111111111111111111111111".toList, to := "0x2222222222222222222222222222222222222222".toList, realTo := "0x2222222222222222222222222222222222222222".toList, execer := "coins".toList, payload := none }
@@ -251,15 +251,15 @@ def exOuter : TxV := { sender := "0x1111111111111111111111111111111111111111".to
 def exInnerClean : TxV := { sender := "0x1111111111111111111111111111111111111111".toList, to := "0x2222222222222222222222222222222222222222".toList, realTo := "0x2222222222222222222222222222222222222222".toList, execer := "coins".toList, payload := none }
 def exInnerDirty : TxV := { sender := "0x1111111111111111111111111111111111111111".toList, to := "0x0707070707070707070707070707070707070707".toList, realTo := "0x0707070707070707070707070707070707070707".toList, execer := "coins".toList, payload := none }
 
-/-- **the full execution statement is false of the code on a para chain**: `executor.checkTx` returns nil at its first
-line for a forwarded transaction (`cfg.IsPara() && IsForward2MainChainTx`): with `forwardExecs = ["coins"]` a transfer of
-this para chain to a blacklisted account gets the receipt ExecOk at an active height. (The main chain does not stop it
-either: there the real recipient is `tx.To`, the executor address.) Replayed on a para testnode (known finding). -/
-theorem exec_full_false : ¬ ExecFullStatement := by
-  intro h
-  have hwf : WF [List.replicate 20 (7 : UInt8)] := by intro r hr; simp at hr; subst hr; rfl
-  have h1 := h [List.replicate 20 (7 : UInt8)] hwf 10 12 (by omega) (.forwarded exInnerDirty .ok) 0 exInnerDirty .ok (by decide) (by decide) (by decide)
-  exact h1 ⟨List.replicate 20 (7 : UInt8), by simp, Or.inr (Or.inl (by decide))⟩
+/-- **regression witness for the defect repaired in /repo (fix d931b79)**: before the fix `executor.checkTx` returned
+nil at its first line for a forwarded transaction; with `forwardExecs = ["coins"]` a transfer of the para chain to a
+blacklisted account got the receipt ExecOk at an active height. The repaired executor answers ExecErr. -/
+theorem old_executor_runs_forwarded_blocked :
+    execForwardedPreFix (activeAt 10 12) [List.replicate 20 (7 : UInt8)] exInnerDirty .ok = [.ok] ∧
+    execItem (activeAt 10 12) [List.replicate 20 (7 : UInt8)] (.forwarded exInnerDirty .ok) = [.err] ∧
+    Touches [List.replicate 20 (7 : UInt8)] exInnerDirty := by
+  refine ⟨by decide, by decide, ?_⟩
+  exact ⟨List.replicate 20 (7 : UInt8), by simp, Or.inr (Or.inl (by decide))⟩
 
 /-- the outer transaction of a proxied item is not looked at by the executor (it is replaced by the inner one before
 `checkTx`): an outer whose own EVM contract-address field is blacklisted keeps its baseline receipt. The outer's payload
